@@ -78,7 +78,15 @@ class SqlFluffLineageAnalyzer(LineageAnalyzer):
                     )
 
     def _list_specific_statement_segment(self, sql: str):
-        parsed = Linter(config=self._sqlfluff_config).parse_string(sql)
+        try:
+            parsed = Linter(config=self._sqlfluff_config).parse_string(sql)
+        except RuntimeError as e:
+            # the parser itself gives up, e.g. a grammar referring to a keyword the dialect does not have
+            raise InvalidSyntaxException(
+                f"This SQL statement is unparsable, please check potential syntax error for SQL:\n"
+                f"{sql}\n"
+                f"{e}"
+            ) from e
         violations = [
             str(e)
             for e in parsed.violations
